@@ -489,6 +489,21 @@ def _do_op(sim, cat, stores, regs, models, op):
                 if set(wide) != set(certain):
                     models[r]["lo"], models[r]["hi"] = dict(certain), wide
                 ev["result"] = "ok"
+            elif k == "swap_dir":
+                # `r = FilesystemRegistry(next_dir, base)` in a loop: the previous registry object is
+                # released by the very assignment that creates the next one
+                d = next(x for x in cat["dirs"] if x["id"] == op["dir"])
+                store, base, exts = stores[d["id"]], resolve_class(d["base"]), tuple(d["extensions"])
+                certain, wide = dir_model(d, False), dir_model(d, True)
+                model_new = {"kind": "dir", "keys": dict(certain), "dir": d["id"]}
+                if set(wide) != set(certain):
+                    model_new["lo"], model_new["hi"] = dict(certain), wide
+                models.pop(op["old"], None)
+                models[r] = model_new
+                reg = None
+                regs.pop(op["old"], None)
+                regs[r] = FilesystemRegistry(store, base, exts)
+                ev["result"] = "ok"
             elif k == "embedded":
                 mod, cls, _ = EMBEDDED[op["kind"]]
                 regs[r] = getattr(__import__(mod, fromlist=["x"]), cls)()
@@ -782,7 +797,7 @@ def execute(case):
     for i, (op, ev) in enumerate(zip(ops, events)):
         if op["op"] == "embedded":
             group[op["r"]] = "emb:" + op["kind"]
-        elif op["op"] in ("open_dir", "combined"):
+        elif op["op"] in ("open_dir", "combined", "swap_dir"):
             group[op["r"]] = op["r"]
         stats["ops"] += 1
         stats["op:" + op["op"]] += 1
@@ -808,7 +823,8 @@ def execute(case):
                 probes["directory-plasmid-looked-up"] += 1
         if op["op"] in ("iter_partial", "iter_nested"):
             probes["abandoned-iteration" if op["op"] == "iter_partial" else "nested-iteration"] += 1
-        if op["op"] == "drop" and i > 0 and ops[i - 1]["op"] == "add" and ops[i - 1].get("member") == op.get("r"):
+        if (op["op"] == "drop" and i > 0 and ops[i - 1]["op"] == "add" and ops[i - 1].get("member") == op.get("r")) or \
+                (op["op"] == "swap_dir" and i > 0 and ops[i - 1]["op"] == "add" and ops[i - 1].get("member") == op.get("old")):
             probes["temporary-member-released-after-add"] += 1
         if op["op"] == "add" and op.get("retry") and i > 0 and events[i - 1]["faulted"]:
             probes["add-retried-after-fault"] += 1
@@ -872,12 +888,15 @@ def _fresh_stem(g, taken):
     raise RuntimeError("stems exhausted")
 
 
-def gen_dir(g, did, shared_stems, emb_keys, used_sources):
+def gen_dir(g, did, shared_stems, emb_keys, used_sources, sizes):
     base = g.choice(list(DIR_BASES))
     elig = (W["eligible"] or {}).get(base) or []
     exts = g.choice([["gb", "gbk"], ["gb", "gbk"], ["gb"], ["gbk", "genbank"], ["gb", "gbk", "genbank"]])
     entries, taken = [], set()
     n = g.choice([0, 1, 2, 3, 4, 5, 6, 8])
+    if sizes and g.random() < 0.4:
+        n = g.choice(sizes)          # as many plasmids as an earlier directory of this run
+    sizes.append(n)
     for _ in range(n):
         if not elig:
             break
@@ -1011,6 +1030,7 @@ def gen_case(spec):
         store["medium"] = "osfs"
     shared_stems = []
     used_sources = []
+    sizes = []
     emb_kinds = []
     n_emb = g.choice([0, 0, 1, 1, 2])
     kinds, weights = zip(*sorted(EMB_WEIGHT.items()))
@@ -1021,7 +1041,7 @@ def gen_case(spec):
         ks = sorted(_emb_model(kd))
         emb_keys.extend(g.sample(ks, min(3, len(ks))))
     for i in range(g.choice([1, 1, 2, 2, 3])):
-        cat["dirs"].append(gen_dir(g, "d%d" % i, shared_stems, emb_keys, used_sources))
+        cat["dirs"].append(gen_dir(g, "d%d" % i, shared_stems, emb_keys, used_sources, sizes))
     handles = {}   # handle -> ("dir", dir dict) | ("embedded", kind) | ("combined", [member handles])
     keysets = {}   # handle -> model key set at generation time (fault-free view)
 
@@ -1047,7 +1067,7 @@ def gen_case(spec):
     motifs = []
     if g.random() < 0.10:
         motifs.append("parent-registry-first")
-    if g.random() < 0.30 and len(cat["dirs"]) >= 2:
+    if g.random() < 0.45 and len(cat["dirs"]) >= 2:
         motifs.append("temporary-members")
     clash = None
     for da in cat["dirs"]:
@@ -1110,19 +1130,28 @@ def gen_case(spec):
                 keysets[c] = {}
                 combined.append(c)
                 ds = sorted(cat["dirs"], key=lambda d_: len(dir_model(d_)))
-                if g.random() < 0.5:
+                same = [d_ for d_ in ds if sum(1 for e_ in ds if len(dir_model(e_)) == len(dir_model(d_))) > 1 and dir_model(d_)]
+                if same:
+                    ds = same + [d_ for d_ in ds if d_ not in same]   # members with equal numbers of plasmids first
+                elif g.random() < 0.5:
                     g.shuffle(ds)
-                for d_ in ds[:3]:
+                prev_t = None
+                for d_ in (ds[:3] + ds[:3] if g.random() < 0.5 else ds[:3]):
                     t = "r%d" % len(handles)
-                    add({"op": "open_dir", "r": t, "dir": d_["id"]})
+                    if prev_t is None or g.random() < 0.3:
+                        add({"op": "open_dir", "r": t, "dir": d_["id"]})
+                    else:
+                        add({"op": "swap_dir", "r": t, "old": prev_t, "dir": d_["id"]})
+                    prev_t = t
                     handles[t] = ("dir", d_)
                     keysets[t] = dir_model(d_)
                     add({"op": "add", "r": c, "member": t, "via": g.choice(["lshift", "add_registry"]), "overlap": bool(set(keysets[t]) & set(keysets[c])), "repeat": False})
                     for kk, src in keysets[t].items():
                         keysets[c].setdefault(kk, src)
                     handles[c][1].append(t)
-                    add({"op": "drop", "r": t})
-                    handles[t] = None
+                    handles[t] = None      # temporaries are not used by later random operations
+                if prev_t:
+                    add({"op": "drop", "r": prev_t})
                 add({"op": g.choice(["iter", "keys"]), "r": c})
                 add({"op": "len", "r": c})
             continue
